@@ -7,7 +7,7 @@
    segments have arrived, how many of the available bytes it returns), `foracle` the short reads
    of the backend, `cuts` another way to give a segmentation, `flushes` when a buffering backend
    lets written bytes become visible.  All are universally quantified.  `stor_modes`,
-   `retr_modes`, `stor_ctx`, `stor_reply_after_ctx`, `reset_exempt` and `Gen.Xfer.facts` are read
+   `retr_modes`, `stor_ctx`, `stor_reply_after_ctx`, `reset_exempt`, `verb_table` and `Gen.Xfer.facts` are read
    from the generated facts of the current source.
 
    Carved out by hypothesis (they belong to other properties): "r+b" on a MISSING file (REST n +
@@ -192,7 +192,7 @@ Print Assumptions C01_later_retr_sees_new_content.
 (* ---- the restart offset reaches the transfer command and only it ---- *)
 Theorem C01_rest_survives : forall hist off0 passive verb off,
   transfer_verb verb ->
-  offset_after reset_exempt (hist ++ get_stream_cmds passive verb off) off0 = off.
+  offset_after verb_table reset_exempt (hist ++ get_stream_cmds passive verb off) off0 = off.
 Proof. exact gen_rest_survives. Qed.
 Print Assumptions C01_rest_survives.
 
@@ -237,5 +237,6 @@ Proof. exact reply_inside_ctx_stale. Qed.
 
 (* what C01_rest_survives does not say (F14, recorded under C05): no reset between two transfers *)
 Example C01_offset_reused_without_reset :
-  offset_after ["retr"; "stor"; "appe"] [CRest 4; CVerb "retr"; CVerb "retr"] 0 = 4.
+  offset_after [("rest", "rest"); ("retr", "retr")] ["retr"; "stor"; "appe"]
+               [CRest 4; CVerb "retr"; CVerb "retr"] 0 = 4.
 Proof. exact offset_reused_without_reset. Qed.
